@@ -221,11 +221,11 @@ theorem powWordBase_spec (W base exp : Nat) (hb : base < 2 ^ W) (hexp : exp ≠ 
 theorem powLargeBase_spec (W : Nat) (hW : 3 ≤ W) (base : List Nat) (exp : Nat)
     (hb : (TRepr.large base).Canon W) (hexp : 2 ≤ exp) :
     (powLargeBase W base exp).value W = val W base ^ exp ∧ (powLargeBase W base exp).Canon W := by
-  have hsq := TRepr.sqr_spec W (by omega) (.large base) hb
+  have hsq := TRepr.sqr_spec W hW (.large base) hb
   exact powLoop_start (TRepr.value W) (TRepr.Canon W) (fun r => r.mul W (.large base))
     (fun r => r.sqr W) (val W base)
     (fun r hr => TRepr.mul_spec W hW r (.large base) hr hb)
-    (fun r hr => TRepr.sqr_spec W (by omega) r hr) exp hexp _ hsq.2 hsq.1
+    (fun r hr => TRepr.sqr_spec W hW r hr) exp hexp _ hsq.2 hsq.1
 
 theorem TRepr.pow_spec (W : Nat) (hW : 3 ≤ W) (a : TRepr) (exp : Nat) (ha : a.Canon W) :
     (a.pow W exp).value W = a.value W ^ exp ∧ (a.pow W exp).Canon W := by
@@ -239,7 +239,7 @@ theorem TRepr.pow_spec (W : Nat) (hW : 3 ≤ W) (a : TRepr) (exp : Nat) (ha : a.
     · rename_i _ h; subst h; exact ⟨by simp, ha⟩
     · split
       · rename_i _ _ h; subst h
-        have hs := TRepr.sqr_spec W (by omega) a ha
+        have hs := TRepr.sqr_spec W hW a ha
         exact ⟨by rw [hs.1, Nat.pow_two], hs.2⟩
       · rename_i h0 h1 h2
         have hexp : 2 ≤ exp := by omega
